@@ -631,13 +631,12 @@ func (r *Reader) parseTable(tableNode *html.Node) *ParsedTable {
 			case "tbody", "tfoot":
 				r.parseTableRows(c, table, false)
 			case "tr":
-				row := r.parseTableRow(c, false)
-				if len(row) > 0 {
-					table.Rows = append(table.Rows, row)
-				}
+				table.Rows = append(table.Rows, r.parseTableRow(c, false))
 			}
 		}
 	}
+
+	table.Rows = dropEmptyRows(table.Rows)
 
 	// If no explicit header but first row has th elements, mark as header
 	if !table.HasHeader && len(table.Rows) > 0 {
@@ -654,14 +653,35 @@ func (r *Reader) parseTable(tableNode *html.Node) *ParsedTable {
 	return table
 }
 
+// dropEmptyRows removes the rows without cells, unless a cell of a row above
+// reaches into the row with its rowspan: then all its cells are covered, but it
+// is a row of the table's grid, and without it the rows below would move up
+// under the wrong cells of the rows above.
+func dropEmptyRows(rows [][]TableCell) [][]TableCell {
+	kept := rows[:0]
+	reach := 0 // rows below the current one that a cell seen so far spans
+	for _, row := range rows {
+		if len(row) == 0 && reach == 0 {
+			continue
+		}
+		if reach > 0 {
+			reach--
+		}
+		for _, cell := range row {
+			if below := cellSpan(cell.RowSpan) - 1; below > reach {
+				reach = below
+			}
+		}
+		kept = append(kept, row)
+	}
+	return kept
+}
+
 // parseTableRows parses rows within thead or tbody.
 func (r *Reader) parseTableRows(section *html.Node, table *ParsedTable, isHeader bool) {
 	for c := section.FirstChild; c != nil; c = c.NextSibling {
 		if c.Type == html.ElementNode && c.Data == "tr" {
-			row := r.parseTableRow(c, isHeader)
-			if len(row) > 0 {
-				table.Rows = append(table.Rows, row)
-			}
+			table.Rows = append(table.Rows, r.parseTableRow(c, isHeader))
 		}
 	}
 }
@@ -1159,22 +1179,18 @@ func (r *Reader) DocumentWithOptions(opts ExtractOptions) (*model.Document, erro
 
 		case ElementTable:
 			if elem.Table != nil && len(elem.Table.Rows) > 0 {
-				numRows := len(elem.Table.Rows)
-				// Rows may differ in length (colspan/rowspan); size the grid
-				// by the longest one so that no cell is dropped.
-				numCols := 0
-				for _, row := range elem.Table.Rows {
-					if len(row) > numCols {
-						numCols = len(row)
-					}
-				}
+				// Cells go to their position on the table's grid (a cell with
+				// colspan/rowspan to its top-left position), as in Markdown().
+				grid := elem.Table.grid()
+				numRows := len(grid)
+				numCols := len(grid[0])
 
 				modelTable := model.NewTable(numRows, numCols)
 				modelTable.BBox = model.BBox{X: 36, Y: yPos, Width: 540, Height: float64(numRows * 15)}
 
-				for i, row := range elem.Table.Rows {
+				for i, row := range grid {
 					for j, cell := range row {
-						if j < len(modelTable.Rows[i]) {
+						if cell != nil {
 							modelTable.Rows[i][j] = model.Cell{
 								Text:     cell.Text,
 								RowSpan:  cell.RowSpan,
